@@ -209,7 +209,7 @@ func runProve(po proveOpts) (res proveResult) {
 			continue
 		}
 		p := eng.pkgs[fc.PkgPath]
-		if p == nil || !strings.HasPrefix(fc.PkgPath, repoModule) {
+		if p == nil || !strings.HasPrefix(fc.PkgPath, repoModule) || fc.Flags["assumed"] || fc.Flags["trusted"] {
 			continue
 		}
 		targets = append(targets, target{p, fc})
